@@ -790,6 +790,20 @@ func (c *evalCtx) call(n *Node) SV {
 	case "ite":
 		cc, a, b := c.eval(n.Args[0]), c.eval(n.Args[1]), c.eval(n.Args[2])
 		return SV{T: ite(cc.T, a.T, b.T), Ty: a.Ty, Opt: a.Opt, Sort: a.Sort}
+	case "$at":
+		// $at("F", e): e evaluated in the state in which the last by-contract call of F on this path was made
+		ae, ok := c.env.(interface {
+			AtCall(fn string) (SpecEnv, bool)
+		})
+		if !ok || len(n.Args) != 2 || n.Args[0].Kind != "str" {
+			panic("$at(\"Function\", expr)")
+		}
+		env2, _ := ae.AtCall(n.Args[0].Name)
+		saved := c.env
+		c.env = env2
+		v := c.eval(n.Args[1])
+		c.env = saved
+		return v
 	case "$called", "$arg", "$ret":
 		ce, ok := c.env.(interface {
 			CallInfo(kind, fn string, i int) (SV, bool)
